@@ -3,7 +3,7 @@
    onnx/graph_proto.go:TensorFromProto and its readers, as repaired), S = Check/CheckC12.v
    (written from the ONNX TensorProto documentation). *)
 From Coq Require Import List ZArith Bool Lia.
-From V Require Import DType Case OpCheck Scalar Decode CheckC12 DecodeProofs.
+From V Require Import DType Case OpCheck Scalar Decode CheckC12 DecodeProofs DimsLoop.
 Import ListNotations.
 Open Scope Z_scope.
 
@@ -39,6 +39,21 @@ Print Assumptions C12_reader_roundtrip.
 Theorem C12_partial_element_refused w data : (0 < w)%nat ->
   (List.length data mod w <> 0)%nat -> read_fixed w data = None.
 Proof. exact (read_fixed_partial w data). Qed.
+
+(* The dims loop of TensorFromProto as repaired (fix 1f7a807: `dim < 1 || dim > nValues/nElements`
+   refuses, else nElements *= dim; finally nValues == nElements): for ANY dims -- huge, negative,
+   wrapping -- it accepts exactly what the model's test accepts (every extent >= 1 and the unbounded
+   product equal to the number of values), and no product it ever forms exceeds the number of values,
+   so the machine multiplication cannot wrap. *)
+Theorem C12_dims_loop_is_the_models_test nv dims : 0 <= nv ->
+  dims_accept nv dims = negb (existsb (fun x => x <? 1) dims) && (nv =? zprod dims).
+Proof. exact (dims_accept_exact nv dims). Qed.
+Theorem C12_dims_loop_cannot_overflow nv dims : 0 <= nv -> Forall (fun p => 1 <= p <= nv) (dims_trace nv 1 dims).
+Proof. intro H. exact (dims_trace_bounded nv 1 dims ltac:(lia) H). Qed.
+(* as first written (product, then one comparison) the wrapped product of [2^32; 2^32] is 0 = an empty payload *)
+Example C12_wrapping_dims_refuted :
+  (fold_left (fun a d => (a * d) mod 2 ^ 64) [4294967296; 4294967296] 1 =? 0) = true /\ dims_accept 0 [4294967296; 4294967296] = false.
+Proof. vm_compute. split; reflexivity. Qed.
 
 (* The defect that was repaired (fix: raw uint64 ...): with the buffer and element sizes of the
    reader as first written, NO non-empty payload ever decoded. *)
